@@ -77,6 +77,9 @@ def generate(rng, tier):
             for comments, pretty in ((0.0, True), (0.35, True), (0.35, False)):
                 sp2 = xmlgen.Spelling(sp.kind, sp.prefix, comments=0.0, pretty=pretty, extra_ns=sp.extra_ns)
                 xml = xmlgen.document(random.Random(seed), dsx, sp2)
+                # some integer types become time types (units / scale / offset / reference time), the same ones in
+                # every rendering
+                xml = c09.time_decorate(random.Random(seed + 2), xml, "" if sp2.kind == "none" else sp2.uri, pretty)
                 if comments:
                     xml = add_comments(random.Random(seed + 1), xml, comments, pretty)
                 rend.append((xml, sp2))
